@@ -12,7 +12,7 @@ from ..provider.essential import CannotProvide, Mediator
 from ..provider.located_request import LocatedRequest, for_predicate
 from ..provider.location import GenericParamLoc
 from ..struct_trail import append_trail, render_trail_as_note
-from ..type_tools import is_named_tuple_class, is_subclass_soft
+from ..type_tools import is_named_tuple_class, is_pydantic_class, is_subclass_soft
 from .json_schema.definitions import JSONSchema
 from .json_schema.request_cls import JSONSchemaRequest
 from .json_schema.schema_model import JSONSchemaType
@@ -63,8 +63,8 @@ class IterableProvider(MorphingProvider):
         if issubclass(norm.origin, collections.abc.Mapping):
             raise CannotProvide
 
-        if is_named_tuple_class(norm.origin):
-            # generic NamedTuple with one type variable is a model, not an iterable of this type
+        if is_named_tuple_class(norm.origin) or is_pydantic_class(norm.origin):
+            # generic NamedTuple or pydantic model with one type variable is a model, not an iterable of this type
             raise CannotProvide
 
         return norm, arg
